@@ -176,12 +176,31 @@ Proof. destruct m; intros H; try reflexivity. now elim H. Qed.
 Definition canon_frac (f : string) : string :=
   match rstrip0 f with EmptyString => "0" | r => r end.
 
-Definition normal_form (n : number) (pad : nat) : string :=
+(* what is left of the fraction in front of an exponent: no final zeros; one
+   digit is kept when there are no integer digits *)
+Definition keep_frac (ip f : string) : string :=
+  if nonempty ip then rstrip0 f else canon_frac f.
+
+Definition normal_form (n : number) : string :=
   match n_exp n with
   | None => n_sign n ++ n_int n ++
             match n_frac n with Some f => "." ++ canon_frac f | None => "" end
-  | Some (es, ed) => n_sign n ++ n_int n ++ frac_str n pad ++ "e" ++ es ++ ed
+  | Some (es, ed) => n_sign n ++ n_int n ++
+            match n_frac n with Some f => "." ++ keep_frac (n_int n) f | None => "" end ++
+            "e" ++ es ++ ed
   end.
+
+Lemma canon_frac_idem f : canon_frac (canon_frac f) = canon_frac f.
+Proof.
+  unfold canon_frac. destruct (rstrip0 f) as [|c r] eqn:E; [reflexivity|].
+  rewrite <- E, rstrip0_idem, E. reflexivity.
+Qed.
+
+Lemma all_digits_canon f : all_digits f = true -> all_digits (canon_frac f) = true.
+Proof.
+  intros H. unfold canon_frac. pose proof (all_digits_rstrip0 f H) as H'.
+  destruct (rstrip0 f); [reflexivity | exact H'].
+Qed.
 
 (* the mantissa and what follows do not start with a sign *)
 Lemma ns_head_digits_app d t :
@@ -190,6 +209,32 @@ Proof.
   intros Hd H. destruct d as [|c d]; simpl in *.
   - destruct H as [H|H]; [discriminate | exact H].
   - apply andb_true_iff in Hd. destruct Hd as [Hc _]. now rewrite (digit_not_sign _ Hc).
+Qed.
+
+(* the passes after the two zero-stripping ones *)
+Definition finish (a : string) : res string :=
+  match add_zero a with Err e => Err e | Ok n => Ok (pass3 (pass2 n)) end.
+
+Lemma normalize_unfold s : normalize_float s = finish (pass1b (pass1 s)).
+Proof. reflexivity. Qed.
+
+(* pass1b leaves spellings without exponent alone *)
+Lemma pass1b_int sg ip : sign_ok sg = true -> all_digits ip = true -> nonempty ip = true ->
+  pass1b (sg ++ ip) = sg ++ ip.
+Proof.
+  intros Hsg Hip Hne. unfold pass1b.
+  assert (Hns : ns_head ip = true).
+  { rewrite <- (sapp_nil_r ip). apply ns_head_digits_app; auto. }
+  rewrite (strip_sign_app _ _ Hsg Hns), (span_digits_all _ Hip). reflexivity.
+Qed.
+
+Lemma pass1b_frac sg ip r : sign_ok sg = true -> all_digits ip = true -> all_digits r = true ->
+  pass1b (sg ++ ip ++ "." ++ r) = sg ++ ip ++ "." ++ r.
+Proof.
+  intros Hsg Hip Hr. unfold pass1b.
+  assert (Hns : ns_head (ip ++ "." ++ r) = true) by (apply ns_head_digits_app; auto).
+  rewrite (strip_sign_app _ _ Hsg Hns), (span_digits_app ip ("." ++ r) Hip eq_refl).
+  change ("." ++ r) with (String "." r). cbv iota beta. rewrite (span_digits_all _ Hr). reflexivity.
 Qed.
 
 Section NoExponent.
@@ -205,7 +250,7 @@ Section NoExponent.
     { rewrite <- (sapp_nil_r ip). apply ns_head_digits_app; auto. }
     assert (P1 : pass1 (sg ++ ip) = sg ++ ip).
     { unfold pass1. rewrite (strip_sign_app _ _ Hsg Hns), (span_digits_all _ Hip). reflexivity. }
-    rewrite P1.
+    rewrite P1, (pass1b_int sg ip Hsg Hip Hne).
     assert (A : add_zero (sg ++ ip) = Ok (sg ++ ip)).
     { unfold add_zero. destruct (last_char_digits ip Hne Hip) as [c [Hc1 Hc2]].
       destruct ip as [|x r]; [discriminate|].
@@ -218,35 +263,50 @@ Section NoExponent.
     rewrite no_marker_app, (no_marker_sign _ Hsg), (no_marker_digits _ Hip). reflexivity.
   Qed.
 
+  (* the first pass on a spelling with a point and no exponent *)
+  Lemma pass1_frac f k : all_digits f = true ->
+    pass1 (sg ++ ip ++ "." ++ f ++ zeros k) = sg ++ ip ++ "." ++ rstrip0 f.
+  Proof.
+    intros Hf. set (r := f ++ zeros k).
+    assert (Hr : all_digits r = true) by (unfold r; now rewrite all_digits_app, Hf, all_digits_zeros).
+    assert (Hns : ns_head (ip ++ "." ++ r) = true) by (apply ns_head_digits_app; auto).
+    assert (Hsp : span_digits (ip ++ "." ++ r) = (ip, "." ++ r)) by (apply span_digits_app; auto).
+    unfold pass1. rewrite (strip_sign_app _ _ Hsg Hns), Hsp, (sign_of_app _ _ Hsg Hns).
+    change ("." ++ r) with (String "." r). cbv iota beta. rewrite Hr. cbn [andb].
+    assert (Hrs : rstrip0 r = rstrip0 f) by apply rstrip0_app_zeros.
+    destruct (String.eqb (rstrip0 r) r) eqn:Eq; cbn [negb].
+    - apply String.eqb_eq in Eq. rewrite <- Eq at 1. now rewrite Hrs.
+    - now rewrite Hrs.
+  Qed.
+
+  Lemma add_zero_frac f : all_digits f = true ->
+    add_zero (sg ++ ip ++ "." ++ rstrip0 f) = Ok (sg ++ ip ++ "." ++ canon_frac f).
+  Proof.
+    intros Hf. pose proof (last_char_rstrip0 f Hf) as HL.
+    unfold add_zero, canon_frac. destruct (rstrip0 f) as [|y t] eqn:E.
+    - change ("." ++ "") with (String "." ""). rewrite <- sapp_assoc, last_char_app_cons.
+      cbn [last_char]. rewrite Ascii.eqb_refl. rewrite !sapp_assoc. reflexivity.
+    - change ("." ++ String y t) with (String "." (String y t)).
+      rewrite <- sapp_assoc, last_char_app_cons.
+      change (last_char (String "." (String y t))) with (last_char (String y t)).
+      destruct (last_char (String y t)) as [c|] eqn:EL; [|discriminate HL].
+      destruct HL as [HL1 HL2]. rewrite (digit_not_dot _ HL1). rewrite sapp_assoc. reflexivity.
+  Qed.
+
+  (* add_zero after the two stripping passes *)
+  Lemma prep_frac f k : all_digits f = true ->
+    add_zero (pass1b (pass1 (sg ++ ip ++ "." ++ f ++ zeros k))) = Ok (sg ++ ip ++ "." ++ canon_frac f).
+  Proof.
+    intros Hf. rewrite (pass1_frac f k Hf), (pass1b_frac sg ip _ Hsg Hip (all_digits_rstrip0 f Hf)).
+    now apply add_zero_frac.
+  Qed.
+
   (* spelling with a point and no exponent: the fraction loses its final zeros,
      one zero is kept when nothing else is left *)
   Lemma norm_frac f k : all_digits f = true ->
     normalize_float (sg ++ ip ++ "." ++ f ++ zeros k) = Ok (sg ++ ip ++ "." ++ canon_frac f).
   Proof.
-    intros Hf. unfold normalize_float.
-    set (r := f ++ zeros k).
-    assert (Hr : all_digits r = true) by (unfold r; now rewrite all_digits_app, Hf, all_digits_zeros).
-    assert (Hns : ns_head (ip ++ "." ++ r) = true) by (apply ns_head_digits_app; auto).
-    assert (Hsp : span_digits (ip ++ "." ++ r) = (ip, "." ++ r)) by (apply span_digits_app; auto).
-    (* after pass1 and add_zero *)
-    assert (A : add_zero (pass1 (sg ++ ip ++ "." ++ r)) = Ok (sg ++ ip ++ "." ++ canon_frac f)).
-    { unfold pass1. rewrite (strip_sign_app _ _ Hsg Hns), Hsp, (sign_of_app _ _ Hsg Hns).
-      change ("." ++ r) with (String "." r). cbv iota beta. rewrite Hr. cbn [andb].
-      assert (Hrs : rstrip0 r = rstrip0 f) by apply rstrip0_app_zeros.
-      pose proof (last_char_rstrip0 f Hf) as HL.
-      assert (Hcanon : add_zero (sg ++ ip ++ "." ++ rstrip0 f) = Ok (sg ++ ip ++ "." ++ canon_frac f)).
-      { unfold add_zero, canon_frac. destruct (rstrip0 f) as [|y t] eqn:E.
-        - change ("." ++ "") with (String "." ""). rewrite <- sapp_assoc, last_char_app_cons.
-          cbn [last_char]. rewrite Ascii.eqb_refl. rewrite !sapp_assoc. reflexivity.
-        - change ("." ++ String y t) with (String "." (String y t)).
-          rewrite <- sapp_assoc, last_char_app_cons.
-          change (last_char (String "." (String y t))) with (last_char (String y t)).
-          destruct (last_char (String y t)) as [c|] eqn:EL; [|discriminate HL].
-          destruct HL as [HL1 HL2]. rewrite (digit_not_dot _ HL1). rewrite sapp_assoc. reflexivity. }
-      destruct (String.eqb (rstrip0 r) r) eqn:Eq; cbn [negb].
-      - apply String.eqb_eq in Eq. rewrite <- Eq at 1. rewrite Hrs. exact Hcanon.
-      - rewrite Hrs. exact Hcanon. }
-    fold r. rewrite A.
+    intros Hf. unfold normalize_float. rewrite (prep_frac f k Hf).
     assert (Hc : all_digits (canon_frac f) = true).
     { unfold canon_frac. pose proof (all_digits_rstrip0 f Hf) as H. destruct (rstrip0 f); [reflexivity | exact H]. }
     assert (Hns' : ns_head (ip ++ "." ++ canon_frac f) = true) by (apply ns_head_digits_app; auto).
@@ -304,8 +364,10 @@ Section Exponent.
     destruct ed as [|y r]; [discriminate|]. now rewrite last_char_app_cons.
   Qed.
 
-  Lemma norm_exp mk : mk_ok mk ->
-    normalize_float (sg ++ ip ++ F ++ mk ++ es ++ ed) = Ok (sg ++ ip ++ F ++ "e" ++ es ++ ed).
+  (* the first pass does nothing; the passes after the stripping ones write the marker e *)
+  Lemma exp_old mk : mk_ok mk ->
+    pass1 (sg ++ ip ++ F ++ mk ++ es ++ ed) = sg ++ ip ++ F ++ mk ++ es ++ ed /\
+    finish (sg ++ ip ++ F ++ mk ++ es ++ ed) = Ok (sg ++ ip ++ F ++ "e" ++ es ++ ed).
   Proof.
     intros Hmk. destruct (tail_head mk Hmk) as [c [r [HT [Hcd [Hcp Hcs]]]]].
     set (E := mk ++ es ++ ed) in *.
@@ -315,14 +377,13 @@ Section Exponent.
     (* span of the mantissa *)
     assert (Hsp : span_digits (ip ++ F ++ E) = (ip, F ++ E)).
     { apply span_digits_app; [exact Hip|]. destruct HF as [[-> _]|[-> _]]; [exact HndE | reflexivity]. }
-    unfold normalize_float.
     assert (P1 : pass1 (sg ++ ip ++ F ++ E) = sg ++ ip ++ F ++ E).
     { unfold pass1. rewrite (strip_sign_app _ _ Hsg Hns), Hsp.
       destruct HF as [[-> _]|[-> _]].
       - change ("" ++ E) with E. rewrite HT. destruct c as [[] [] [] [] [] [] [] []]; try reflexivity; discriminate Hcp.
       - change (("." ++ g) ++ E) with (String "." (g ++ E)). cbv iota beta.
         rewrite all_digits_app, Hg, HT. cbn [all_digits andb]. rewrite Hcd. reflexivity. }
-    rewrite P1.
+    split; [exact P1|]. unfold finish.
     assert (A : add_zero (sg ++ ip ++ F ++ E) = Ok (sg ++ ip ++ F ++ E)).
     { unfold add_zero, E. rewrite <- !sapp_assoc.
       destruct (last_is_digit ((((sg ++ ip) ++ F) ++ mk) ++ es)) as [c' [H1 H2]].
@@ -361,7 +422,89 @@ Section Exponent.
       exfalso. unfold E in HT. rewrite Hm in HT.
       destruct (es_nonempty_cases Hn) as [He | He]; rewrite He in HT; inversion HT; subst c; discriminate Es.
   Qed.
+  (* the exponent part is one *)
+  Lemma exp_ok_E mk : mk_ok mk -> exp_ok (mk ++ es ++ ed) = true.
+  Proof.
+    assert (Hnsd : ns_head ed = true).
+    { rewrite <- (sapp_nil_r ed). apply ns_head_digits_app; auto. }
+    assert (Hlet : nonempty (strip_sign (es ++ ed)) && all_digits (strip_sign (es ++ ed)) = true)
+      by now rewrite (strip_sign_app _ _ Hes Hnsd), Hne, Hed.
+    intros [-> | [-> | [-> | [-> | [-> H]]]]]; try exact Hlet.
+    destruct (es_nonempty_cases H) as [-> | ->]; simpl; now rewrite Hne, Hed.
+  Qed.
+
+  (* what the second pass leaves of the fraction *)
+  Definition strip_frac (f : string) : string :=
+    if nonempty ip then rstrip0 f else canon_frac f.
+  Definition F' : string := match F with EmptyString => "" | _ => "." ++ strip_frac g end.
+
+  Lemma exp_pass1b mk : mk_ok mk ->
+    pass1b (sg ++ ip ++ F ++ mk ++ es ++ ed) = sg ++ ip ++ F' ++ mk ++ es ++ ed.
+  Proof.
+    intros Hmk. destruct (tail_head mk Hmk) as [c [r [HT [Hcd [Hcp Hcs]]]]].
+    pose proof (exp_ok_E mk Hmk) as Hok.
+    set (E := mk ++ es ++ ed) in *.
+    assert (HndE : nd_head E = true) by (rewrite HT; simpl; now rewrite Hcd).
+    assert (Hns : ns_head (ip ++ F ++ E) = true).
+    { apply mantissa_ns. destruct HF as [[_ [_ Hi]]|[-> _]]; [right; left; exact Hi | right; right; discriminate]. }
+    assert (Hsp : span_digits (ip ++ F ++ E) = (ip, F ++ E)).
+    { apply span_digits_app; [exact Hip|]. destruct HF as [[-> _]|[-> _]]; [exact HndE | reflexivity]. }
+    unfold pass1b, F'. rewrite (strip_sign_app _ _ Hsg Hns), Hsp, (sign_of_app _ _ Hsg Hns).
+    destruct HF as [[-> _]|[-> Hne2]].
+    - change ("" ++ E) with E. rewrite HT. destruct c as [[] [] [] [] [] [] [] []]; try reflexivity; discriminate Hcp.
+    - change (("." ++ g) ++ E) with (String "." (g ++ E)). cbv iota beta.
+      rewrite (span_digits_app g E Hg HndE), Hok. cbn [andb].
+      change (match "." ++ g with "" => "" | String _ _ => "." ++ strip_frac g end) with ("." ++ strip_frac g).
+      unfold strip_frac.
+      destruct (String.eqb (rstrip0 g) g) eqn:Eq; cbn [negb].
+      + apply String.eqb_eq in Eq. destruct (nonempty ip) eqn:Ei.
+        * now rewrite Eq.
+        * unfold canon_frac. rewrite Eq. destruct g as [|y t]; [discriminate Hne2 | reflexivity].
+      + destruct (nonempty ip) eqn:Ei.
+        * rewrite !sapp_assoc. reflexivity.
+        * destruct ip; [|discriminate Ei]. unfold canon_frac.
+          destruct (rstrip0 g) as [|y t]; simpl; rewrite ?sapp_assoc; reflexivity.
+  Qed.
 End Exponent.
+
+(* spelling with an exponent: zeros at the end of the fraction go (one digit is
+   kept when there are no integer digits), the marker becomes e *)
+Lemma strip_frac_idem ip g : strip_frac ip (strip_frac ip g) = strip_frac ip g.
+Proof. unfold strip_frac. destruct (nonempty ip); [apply rstrip0_idem | apply canon_frac_idem]. Qed.
+
+
+Lemma all_digits_strip_frac ip g : all_digits g = true -> all_digits (strip_frac ip g) = true.
+Proof.
+  intros H. unfold strip_frac. destruct (nonempty ip); [now apply all_digits_rstrip0 | now apply all_digits_canon].
+Qed.
+
+Lemma norm_exp sg ip es ed F g :
+  sign_ok sg = true -> all_digits ip = true -> sign_ok es = true -> all_digits ed = true ->
+  nonempty ed = true -> all_digits g = true ->
+  ((F = "" /\ g = "" /\ nonempty ip = true) \/ (F = "." ++ g /\ (nonempty ip || nonempty g) = true)) ->
+  forall mk, mk_ok es mk ->
+  normalize_float (sg ++ ip ++ F ++ mk ++ es ++ ed) = Ok (sg ++ ip ++ F' ip F g ++ "e" ++ es ++ ed).
+Proof.
+  intros Hsg Hip Hes Hed Hne Hg HF mk Hmk.
+  rewrite normalize_unfold.
+  rewrite (proj1 (exp_old sg ip es ed F g Hsg Hip Hes Hed Hne Hg HF mk Hmk)).
+  rewrite (exp_pass1b sg ip es ed F g Hsg Hip Hes Hed Hne Hg HF mk Hmk).
+  assert (HF' : (F' ip F g = "" /\ strip_frac ip g = "" /\ nonempty ip = true) \/
+                (F' ip F g = "." ++ strip_frac ip g /\ (nonempty ip || nonempty (strip_frac ip g)) = true)).
+  { destruct HF as [[-> [-> Hi]]|[-> Hn]].
+    - left. unfold F', strip_frac. rewrite Hi. auto.
+    - right. split; [reflexivity|]. unfold strip_frac. destruct (nonempty ip) eqn:Ei; [reflexivity|].
+      unfold canon_frac. destruct (rstrip0 g); reflexivity. }
+  exact (proj2 (exp_old sg ip es ed (F' ip F g) (strip_frac ip g) Hsg Hip Hes Hed Hne
+                  (all_digits_strip_frac ip g Hg) HF' mk Hmk)).
+Qed.
+
+(* the result is stable *)
+Lemma F'_idem ip F g :
+  ((F = "" /\ g = "") \/ F = "." ++ g) -> F' ip (F' ip F g) (strip_frac ip g) = F' ip F g.
+Proof.
+  intros [[-> ->] | ->]; [reflexivity|]. unfold F'. simpl. now rewrite strip_frac_idem.
+Qed.
 
 (* ---- the theorem over the spelling relation ---- *)
 Lemma marker_mk_ok n m es ed : n_exp n = Some (es, ed) -> marker_ok n m = true ->
@@ -370,9 +513,15 @@ Proof.
   unfold marker_ok, mk_ok. intros -> H. destruct m; simpl; auto 6.
 Qed.
 
+Lemma strip_frac_keep ip f : strip_frac ip f = keep_frac ip f.
+Proof. reflexivity. Qed.
+
+Lemma keep_frac_pad ip f k : keep_frac ip (f ++ zeros k) = keep_frac ip f.
+Proof. unfold keep_frac, canon_frac. now rewrite rstrip0_app_zeros. Qed.
+
 Theorem norm_spell n pad m :
   wf_number n = true -> marker_ok n m = true ->
-  normalize_float (spell n pad m) = Ok (normal_form n pad).
+  normalize_float (spell n pad m) = Ok (normal_form n).
 Proof.
   unfold wf_number. intros W M.
   repeat (apply andb_true_iff in W; destruct W as [W ?]).
@@ -383,72 +532,78 @@ Proof.
     apply andb_true_iff in Hexp. destruct Hexp as [Hes Hne].
     pose proof (marker_mk_ok n m es ed Eexp M) as Hmk.
     destruct (n_frac n) as [f|] eqn:Ef.
-    + apply (norm_exp (n_sign n) (n_int n) es ed ("." ++ f ++ zeros pad) (f ++ zeros pad)); auto.
+    + rewrite (norm_exp (n_sign n) (n_int n) es ed ("." ++ f ++ zeros pad) (f ++ zeros pad)
+                 Hsg Hid Hes Hed Hne); auto.
+      * unfold F'. simpl. now rewrite strip_frac_keep, keep_frac_pad.
       * now rewrite all_digits_app, Hfd, all_digits_zeros.
       * right. split; [reflexivity|]. apply orb_true_iff in Hdig. apply orb_true_iff.
         destruct Hdig as [H|H]; [left; exact H | right; now apply nonempty_app_l].
     + simpl in Hdig. rewrite orb_false_r in Hdig.
-      apply (norm_exp (n_sign n) (n_int n) es ed "" ""); auto.
+      rewrite (norm_exp (n_sign n) (n_int n) es ed "" "" Hsg Hid Hes Hed Hne); auto.
   - destruct (n_frac n) as [f|] eqn:Ef.
     + rewrite !sapp_nil_r. apply norm_frac; auto.
     + simpl in Hdig. rewrite orb_false_r in Hdig. rewrite !sapp_nil_r. apply norm_int; auto.
 Qed.
 
-(* spellings of one number that differ by the marker, and — without an
-   exponent — by zeros padded to the fraction, normalise alike *)
+(* all spellings of one number that differ by the marker and by zeros padded to
+   the fraction — with or without exponent — normalise alike, and never raise *)
 Theorem normalize_float_classes n p1 m1 p2 m2 :
   wf_number n = true -> marker_ok n m1 = true -> marker_ok n m2 = true ->
-  (n_exp n = None \/ p1 = p2) ->
   normalize_float (spell n p1 m1) = normalize_float (spell n p2 m2) /\
   exists s, normalize_float (spell n p1 m1) = Ok s.
 Proof.
-  intros W M1 M2 G. rewrite (norm_spell n p1 m1 W M1), (norm_spell n p2 m2 W M2).
-  split; [|eexists; reflexivity]. f_equal.
-  destruct G as [G | ->]; [|reflexivity]. unfold normal_form. now rewrite G.
+  intros W M1 M2. rewrite (norm_spell n p1 m1 W M1), (norm_spell n p2 m2 W M2).
+  split; [reflexivity | eexists; reflexivity].
 Qed.
 
-(* the guard is needed: zeros between a fraction and an exponent stay *)
-Definition witness_number : number := mkNumber "-" "1" (Some "5") (Some ("-", "3")).
-
-Theorem normalize_float_exponent_padding_refuted :
-  exists n p1 p2 m, wf_number n = true /\ marker_ok n m = true /\
-    spell n p1 m = "-1.5e-3" /\ spell n p2 m = "-1.50e-3" /\
-    normalize_float (spell n p1 m) <> normalize_float (spell n p2 m).
-Proof.
-  exists witness_number, 0%nat, 1%nat, Me. repeat split; try reflexivity. vm_compute. discriminate.
-Qed.
+(* what does NOT collapse (documented behaviour, outside the property's
+   spelling relation): a missing point ('1' / '1.0', '1e5' / '1.e5'), leading
+   zeros of the integer part or a missing one ('01.5' / '1.5', '.5' / '0.5'), an
+   explicit '+', the spelling of the exponent digits and sign ('e5' / 'e+5' /
+   'e05'), a shifted point ('15' / '1.5e1') *)
+Theorem normalize_float_kept_distinct :
+  normalize_float "1" <> normalize_float "1.0" /\
+  normalize_float "1e5" <> normalize_float "1.e5" /\
+  normalize_float "01.5" <> normalize_float "1.5" /\
+  normalize_float ".5" <> normalize_float "0.5" /\
+  normalize_float "+1.5" <> normalize_float "1.5" /\
+  normalize_float "1.5e5" <> normalize_float "1.5e+5" /\
+  normalize_float "1.5e5" <> normalize_float "1.5e05" /\
+  normalize_float "15" <> normalize_float "1.5e1" /\
+  (* while these do *)
+  normalize_float "1." = normalize_float "1.00" /\
+  normalize_float "1.0e5" = normalize_float "1.D5" /\
+  normalize_float ".50-3" = normalize_float ".5E-3" /\
+  normalize_float ".0e5" = normalize_float ".000d5".
+Proof. vm_compute. repeat split; discriminate. Qed.
 
 (* ---- normal forms are fixed points ---- *)
-Lemma canon_frac_idem f : canon_frac (canon_frac f) = canon_frac f.
-Proof.
-  unfold canon_frac. destruct (rstrip0 f) as [|c r] eqn:E; [reflexivity|].
-  rewrite <- E, rstrip0_idem, E. reflexivity.
-Qed.
+Lemma keep_frac_idem ip f : keep_frac ip (keep_frac ip f) = keep_frac ip f.
+Proof. apply strip_frac_idem. Qed.
 
-Lemma all_digits_canon f : all_digits f = true -> all_digits (canon_frac f) = true.
-Proof.
-  intros H. unfold canon_frac. pose proof (all_digits_rstrip0 f H) as H'.
-  destruct (rstrip0 f); [reflexivity | exact H'].
-Qed.
+Lemma all_digits_keep ip f : all_digits f = true -> all_digits (keep_frac ip f) = true.
+Proof. apply all_digits_strip_frac. Qed.
 
-Theorem normal_form_fixed n pad :
-  wf_number n = true -> normalize_float (normal_form n pad) = Ok (normal_form n pad).
+Theorem normal_form_fixed n :
+  wf_number n = true -> normalize_float (normal_form n) = Ok (normal_form n).
 Proof.
   unfold wf_number. intros W.
   repeat (apply andb_true_iff in W; destruct W as [W ?]).
   rename H into Hexp, H0 into Hdig, H1 into Hfd, H2 into Hid. rename W into Hsg.
-  unfold normal_form, frac_str, frac_digits in *.
+  unfold normal_form, frac_digits in *.
   destruct (n_exp n) as [[es ed]|] eqn:Eexp.
   - apply andb_true_iff in Hexp. destruct Hexp as [Hexp Hed].
     apply andb_true_iff in Hexp. destruct Hexp as [Hes Hne].
     destruct (n_frac n) as [f|] eqn:Ef.
-    + apply (norm_exp (n_sign n) (n_int n) es ed ("." ++ f ++ zeros pad) (f ++ zeros pad)); auto.
-      * now rewrite all_digits_app, Hfd, all_digits_zeros.
-      * right. split; [reflexivity|]. apply orb_true_iff in Hdig. apply orb_true_iff.
-        destruct Hdig as [H|H]; [left; exact H | right; now apply nonempty_app_l].
+    + rewrite (norm_exp (n_sign n) (n_int n) es ed ("." ++ keep_frac (n_int n) f) (keep_frac (n_int n) f)
+                 Hsg Hid Hes Hed Hne (all_digits_keep _ f Hfd)).
+      * unfold F'. simpl. now rewrite strip_frac_keep, keep_frac_idem.
+      * right. split; [reflexivity|]. unfold keep_frac. destruct (nonempty (n_int n)); [reflexivity|].
+        unfold canon_frac. destruct (rstrip0 f); reflexivity.
       * left. reflexivity.
     + simpl in Hdig. rewrite orb_false_r in Hdig.
-      apply (norm_exp (n_sign n) (n_int n) es ed "" ""); auto. left. reflexivity.
+      rewrite (norm_exp (n_sign n) (n_int n) es ed "" "" Hsg Hid Hes Hed Hne); auto.
+      left. reflexivity.
   - destruct (n_frac n) as [f|] eqn:Ef.
     + pose proof (norm_frac (n_sign n) (n_int n) Hsg Hid (canon_frac f) 0 (all_digits_canon f Hfd)) as H.
       cbn [zeros] in H. rewrite sapp_nil_r, canon_frac_idem in H. exact H.
@@ -459,15 +614,12 @@ Qed.
 Theorem parse_material_classes mat z n p1 m1 p2 m2 rest1 rest2 :
   int_of_token mat = Some z -> z <> 0%Z ->
   wf_number n = true -> marker_ok n m1 = true -> marker_ok n m2 = true ->
-  (n_exp n = None \/ p1 = p2) ->
-  parse_material (mat :: spell n p1 m1 :: rest1) = Ok (mat, Some (normal_form n p1)) /\
+  parse_material (mat :: spell n p1 m1 :: rest1) = Ok (mat, Some (normal_form n)) /\
   parse_material (mat :: spell n p2 m2 :: rest2) = parse_material (mat :: spell n p1 m1 :: rest1).
 Proof.
-  intros Hm Hz W M1 M2 G. unfold parse_material. rewrite Hm.
+  intros Hm Hz W M1 M2. unfold parse_material. rewrite Hm.
   destruct z as [|p|p]; [now elim Hz| |];
-    rewrite (norm_spell n p1 m1 W M1), (norm_spell n p2 m2 W M2);
-    (split; [reflexivity|]); do 3 f_equal;
-    (destruct G as [G | ->]; [|reflexivity]); unfold normal_form; now rewrite G.
+    rewrite (norm_spell n p1 m1 W M1), (norm_spell n p2 m2 W M2); split; reflexivity.
 Qed.
 
 (* void cells carry no density *)
@@ -477,21 +629,39 @@ Proof. intros H. unfold parse_material. now rewrite H. Qed.
 
 (* ---- LIKE n BUT ---- *)
 (* a density given by RHO= is stored like the same spelling on a cell card *)
-Theorem cell_material_rho toks m0 d0 kmat n pad m :
+Theorem cell_material_rho toks m0 d0 kmat n pad m z :
   parse_material toks = Ok (m0, d0) -> wf_number n = true -> marker_ok n m = true ->
+  int_of_token (match kmat with Some x => x | None => m0 end) = Some z -> z <> 0%Z ->
   cell_material toks kmat (Some (spell n pad m)) =
-    Ok (match kmat with Some x => x | None => m0 end, Some (normal_form n pad)).
+    Ok (match kmat with Some x => x | None => m0 end, Some (normal_form n)).
 Proof.
-  intros H W M. unfold cell_material. rewrite H, (norm_spell n pad m W M). reflexivity.
+  intros H W M Hz Hnz. unfold cell_material. rewrite H, (norm_spell n pad m W M), Hz.
+  destruct z; [now elim Hnz | reflexivity | reflexivity].
+Qed.
+
+(* MAT=0 (any spelling of 0) gives a void cell without density, whatever the
+   base cell and whatever RHO= says *)
+Theorem cell_material_void toks m0 d0 kmat krho :
+  parse_material toks = Ok (m0, d0) -> int_of_token kmat = Some 0%Z ->
+  (forall r, krho = Some r -> exists nr, normalize_float r = Ok nr) ->
+  cell_material toks (Some kmat) krho = Ok (kmat, None).
+Proof.
+  intros H Hz Hr. unfold cell_material. rewrite H.
+  destruct krho as [r|].
+  - destruct (Hr r eq_refl) as [nr ->]. now rewrite Hz.
+  - now rewrite Hz.
 Qed.
 
 (* without keywords the base pair is kept *)
-Lemma cell_material_plain toks : cell_material toks None None =
-  match parse_material toks with Ok (m, d) => Ok (m, d) | Err e => Err e end.
-Proof. unfold cell_material. destruct (parse_material toks) as [[m d]|]; reflexivity. Qed.
-
-(* MAT=0 on a copy of a cell with a density: a void cell that keeps a density
-   (finding like_but_mat_void) *)
-Theorem cell_material_void_refuted :
-  exists toks d, cell_material toks (Some "0") None = Ok ("0", Some d).
-Proof. exists ["1"; "-1.0"], "-1.0". reflexivity. Qed.
+Lemma cell_material_plain toks m d : parse_material toks = Ok (m, d) ->
+  cell_material toks None None = Ok (m, d).
+Proof.
+  intros H. unfold cell_material. rewrite H.
+  unfold parse_material in H. destruct toks as [|m1 rest]; [discriminate|].
+  destruct (int_of_token m1) as [[|p|p]|] eqn:E; try discriminate.
+  - inversion H; subst. now rewrite E.
+  - destruct rest as [|d1 r]; [discriminate|]. destruct (normalize_float d1); [|discriminate].
+    inversion H; subst. now rewrite E.
+  - destruct rest as [|d1 r]; [discriminate|]. destruct (normalize_float d1); [|discriminate].
+    inversion H; subst. now rewrite E.
+Qed.
